@@ -1,6 +1,9 @@
 (* C02 — linear-system solvers and matrix decompositions satisfy their defining equations.
    Only statements + `exact`; proofs live in C02Proofs.v / C02CholBlkProofs.v / C02LUProofs.v / C02LURightProofs.v /
-   C02BlkTotalProofs.v / C02QProofs.v, the executable model in C02Model.v and C02BlkModel.v (blocked potrf, getrf, LU solve).
+   C02BlkTotalProofs.v / C02QProofs.v, the executable model in C02Model.v and C02BlkModel.v (blocked potrf, getrf, LU solve);
+   extension round: models C02PstrfModel.v, C02SemiModel.v, C02UpdModel.v, C02LUMatModel.v, C02RlModel.v, proofs
+   C02PstrfProofs.v, C02PstrfOrdProofs.v, C02SemiProofs.v, C02UpdProofs.v, C02LUMatProofs.v, C02RlProofs.v, concrete runs
+   over Qc (satisfiability of the hypotheses, order-law instances) in C02*QProofs.v.
 
    PROVED (for every size n, over every field given as a record of operations with `field_theory`; in
    particular over Qc, the instantiation the extracted model runs with — Section variables, no axioms):
@@ -65,15 +68,19 @@
        C02_Q_update_order_instance) it returns for every beta >= 0 (C02_chol_update_returns).
      * EXTENSION (C02LUMatModel.v, C02LUMatProofs.v): pivoting_lu_decomposition::solve(B, left/right) with matrix right-hand
        sides through the blocked trsm (C02_lu_solve_m_correct).
+     * EXTENSION (C02RlModel.v, C02RlProofs.v): the blocked potrf when the diagonal blocks are factorised by the RIGHT-LOOKING
+       kernel (column-major lower / row-major upper; potrf_block(column_major,lower) = row-major upper kernel on the transposed
+       window, inside potrf_recursive): success => L L^T = A (U^T U = A), pivots divided by are non-zero, other triangle
+       untouched (C02_potrf_rl_blocked_correct, C02_potrf_rl_upper_row_correct); all four (triangle, storage) pairs are now
+       compared through the blocked models (potrf_blocked2), incl. the return value and the matrix left behind on failure.
    ONLY COMPARED / MONITORED by tools/c02.py (no theorem): the value potrf returns on failure (the index is relative to
-   the diagonal block that failed; compared with the model); the blocked
-   potrf when the diagonal blocks use the right-looking kernel (column-major lower / row-major upper, n > 32: compared
-   with the unblocked model, the factor being unique); the semi-definite solver with MATRIX right-hand sides (trsm instead of
-   trsv: the vector model is applied column by column / row by row and compared exactly) and for column-major storage the
-   potrf of L^T L (right-looking kernel; contract assumed in C02_semi_solve_with_lsq); symmetric eigen-decomposition, conjugate gradient, the OpenBLAS bindings, all floating-point rounding. *)
+   the diagonal block that failed; compared with the model); the semi-definite solver with MATRIX right-hand sides (trsm instead of
+   trsv: the vector model is applied column by column / row by row and compared exactly) (for column-major storage the
+   contract on the potrf of L^T L assumed by C02_semi_solve_with_lsq is what C02_potrf_rl_blocked_correct proves, but the two are
+   not composed into one theorem); symmetric eigen-decomposition, conjugate gradient, the OpenBLAS bindings, all floating-point rounding. *)
 From Coq Require Import List Arith Bool Lia Field QArith Qcanon Permutation.
 From SharkV Require Import C02Model C02Proofs C02Q C02QProofs C02BlkModel C02LUProofs C02CholBlkProofs C02BlkTotalProofs C02LURightProofs.
-From SharkV Require Import C02PstrfModel C02PstrfProofs C02PstrfOrdProofs C02PstrfQProofs C02SemiModel C02SemiProofs C02SemiQProofs C02UpdModel C02UpdProofs C02UpdQProofs C02LUMatModel C02LUMatProofs C02LUMatQProofs.
+From SharkV Require Import C02PstrfModel C02PstrfProofs C02PstrfOrdProofs C02PstrfQProofs C02SemiModel C02SemiProofs C02SemiQProofs C02UpdModel C02UpdProofs C02UpdQProofs C02LUMatModel C02LUMatProofs C02LUMatQProofs C02RlModel C02RlProofs C02RlQProofs.
 Local Close Scope Qc_scope. Local Close Scope Q_scope. Local Open Scope nat_scope.
 
 Section AnyField.
@@ -516,3 +523,33 @@ Theorem C02_Q_lu_solve_m_satisfiable :
   exists LU P X, getrf Qc (qc_ops ex_sq) qc_abs 1 1 3 ex_A3 = LUOk Qc LU P /\ lu_solve_m Qc (qc_ops ex_sq) 1 true LU P 3 ex_lum_B = Some X.
 Proof. exact ex_lu_solve_m_satisfiable. Qed.
 Print Assumptions C02_Q_lu_solve_m_satisfiable.
+
+(* ================= extension: blocked Cholesky with the right-looking diagonal-block kernel (C02RlModel.v / C02RlProofs.v) ================= *)
+Section Rl.
+Variable A : Type.
+Variable F : ops A.
+Hypothesis Fth : field_theory (fzero F) (fone F) (fadd F) (fmul F) (fsub F) (fopp F) (fdiv F) (finv F) (@eq A).
+Hypothesis feqb_spec : forall x y, feqb F x y = true <-> x = y.
+(* column-major lower = potrf_blocked2 false ColMajor = potrf_rec_rl: every size, every block size > 0 of potrf and trsm; the
+   square root exact on the pivots (stated on the returned factor: pivot j = A(j,j) - sum_{t<j} L(j,t)^2): L L^T = A on the lower
+   triangle, every pivot that was divided by is non-zero, upper triangle untouched, no pivot negative (the kernel's test) *)
+Theorem C02_potrf_rl_blocked_correct : forall bs tbs fuel n (M L : mat A), 0 < bs -> 0 < tbs ->
+  potrf_rec_rl A F bs tbs fuel n 0 n M = BOk A L -> rl_sqrt_exact A F n M L ->
+  (forall i c, c <= i < n -> sumr A F 0 (S c) (fun t => fmul F (L i t) (L c t)) = M i c) /\
+  (forall c, S c < n -> L c c <> fzero F) /\
+  (forall i c, i < c -> L i c = M i c) /\
+  (forall j, j < n -> fltb F (fsub F (M j j) (sumr A F 0 j (fun t => fmul F (L j t) (L j t)))) (fzero F) = false).
+Proof. exact (potrf_rec_rl_correct A F Fth feqb_spec). Qed.
+(* row-major upper: U^T U = A on the upper triangle *)
+Theorem C02_potrf_rl_upper_row_correct : forall bs tbs n (M U : mat A), 0 < bs -> 0 < tbs ->
+  potrf_blocked2 A F bs tbs true RowMajor n M = BOk A U -> rl_sqrt_exact A F n (transp A M) (transp A U) ->
+  (forall r c, r <= c < n -> sumr A F 0 (S r) (fun t => fmul F (U t r) (U t c)) = M r c) /\
+  (forall r c, c < r -> U r c = M r c).
+Proof. exact (potrf_blocked2_upper_row_correct A F Fth feqb_spec). Qed.
+End Rl.
+Print Assumptions C02_potrf_rl_blocked_correct.
+Print Assumptions C02_potrf_rl_upper_row_correct.
+Theorem C02_Q_rl_hypotheses_satisfiable :
+  exists L, potrf_rec_rl Qc (qc_ops ex_sq) 1 1 2 2 0 2 ex_M = BOk Qc L /\ rl_sqrt_exact Qc (qc_ops ex_sq) 2 ex_M L.
+Proof. exact ex_rl_hypotheses_satisfiable. Qed.
+Print Assumptions C02_Q_rl_hypotheses_satisfiable.
